@@ -15,7 +15,15 @@ POLYS = [  # (points, a point well inside)
     ([(-4, -2), (0, -4), (4, -2), (3, 3), (-3, 3)], (0, 0)),                      # convex pentagon
     ([(-5, -1), (-1, -1), (-1, -4), (2, -4), (2, 4), (-1, 4), (-1, 1.5), (-5, 1.5)], (0.5, 0)),  # T
 ]
-SHAPES = {"box": None, "cyl": "CylinderShape()", "cone": "ConeShape()", "sph": "SpheroidShape()", "mesh": "MeshShape(twobody())"}
+SHAPES = {"box": None, "cyl": "CylinderShape()", "cone": "ConeShape()", "sph": "SpheroidShape()", "mesh": "MeshShape(twobody())",
+          "lmesh": "MeshShape(lprism())"}
+
+
+def lprism():
+    """Thick L-shaped prism: one non-convex body whose solid can swallow a small object without surface contact."""
+    import shapely.geometry
+    import trimesh
+    return trimesh.creation.extrude_polygon(shapely.geometry.Polygon([(0, 0), (3, 0), (3, 1.2), (1.2, 1.2), (1.2, 3), (0, 3)]), 1.5)
 
 
 def twobody():
@@ -69,6 +77,8 @@ def satisfiable(p, ranges, turns):
         return all(satisfiable(q, ranges, turns) for q in p[1:])
     if p[0] == "hdg_lt":
         return turns[p[1]] or turns[p[2]]
+    if p[0] in ("dist_gt", "dist_lt", "x_lt") and ranges[p[1]] is None and ranges[p[2]] is None:
+        return False  # both objects at fixed positions: the atom is a constant
     if p[0] in ("x_lt_c", "y_lt_c"):
         r = ranges[p[1]]
         if r is None:
@@ -216,6 +226,36 @@ def generate(t):
             o["visible"] = True if has_ego and t.chance(2, 5, tag + "vis") else None
         objs.append(o)
         names.append(name)
+    # layouts the built-in checks must get right on their own: 1 = two objects at FIXED poses and sizes (static bounds) that
+    # overlap, with random collision flags; 2 = a small convex object sampled inside the bounding box of a fixed non-convex solid
+    # (L prism), so that it is often swallowed by the solid without touching its surface
+    feature = t.weighted([7, 2, 2], "feature") if n >= 2 else 0
+    if feature == 1 and ws["kind"] == "box":
+        feature = 0  # Scenario.validate() cannot compile a fixed object with a random allowCollisions inside a mesh container
+    s = ws["safe"]
+    if feature and has_ego and n > 2 and ranges[0] is None:
+        objs[0]["pos"], ranges[0] = "in workspace", wb
+    if feature == 1 or (feature == 2 and two):
+        dx, dy = t.choice([(0.2, 0.1), (0.6, 0.4), (-1.6, 0)], "fix.offset")
+        for k, o in enumerate(objs[-2:]):
+            o["dims"] = [("c", t.choice(DIMC, f"fix{k}.{d}")) for d in "wlh"]
+            o["pos"] = f"at ({round(s[0] + k * dx, 3)}, {round(s[1] + k * dy, 3)}{'' if two else f', {s[2]}'})"
+            o["facing"] = t.choice([None, "40 deg"], f"fix{k}.facing")
+            # validate() raises RandomControlFlowError for a fixed object with a constant False flag that follows an object with a
+            # random flag, so the constant flag may only come first
+            o["allow"] = "U" if k == 1 or any(p["allow"] == "U" for p in objs[:-2]) else t.choice(["U", "F"], "fix0.allow")
+            o["cont"] = None
+        ranges[-2:] = [None, None]
+    elif feature == 2:
+        host, guest = objs[-2], objs[-1]
+        host.update(shape="lmesh", dims=[("c", 3), ("c", 3), ("c", 1.5)], pos=f"at ({s[0]}, {s[1]}, {s[2]})", facing=None, allow="F", cont=None)
+        gd = t.choice([("c", 0.3), ("r", 0.2, 0.6), ("c", 0.5)], "embed.size")
+        guest.update(shape=guest["shape"] if guest["shape"] in ("box", "cyl", "cone", "sph") else "box", dims=[gd] * 3, allow="F", cont=None,
+                     pos=f"in BoxRegion(dimensions=(3, 3, 1.2), position=({s[0]}, {s[1]}, {s[2]}))")
+        if not guest["ego"]:
+            guest["visible"] = None
+        ranges[-2:] = [None, (s[0] - 1.5, s[0] + 1.5, s[1] - 1.5, s[1] + 1.5)]
+    meshy = any(o["shape"] in ("mesh", "lmesh") for o in objs)
     nh, ns = t.weighted([3, 3, 2, 1], "nhard"), t.weighted([3, 2, 1], "nsoft")
     reqs = [{"pred": gen_pred(t, n, f"h{k}."), "prob": None} for k in range(nh)]
     reqs += [{"pred": gen_pred(t, n, f"s{k}."), "prob": t.choice([0.5, 0.25, 0.75], f"s{k}.p")} for k in range(ns)]
@@ -225,14 +265,14 @@ def generate(t):
             reqs.insert(0, {"pred": ("y_lt_c", i, round(ranges[i][2] + 0.1 * (ranges[i][3] - ranges[i][2]), 3)), "prob": None})
     seen, kept = set(), []
     for r in reqs:  # drop unsatisfiable thresholds and requirements that could contradict an earlier one (same atom kind, same object)
-        if satisfiable(r["pred"], ranges, [bool(o["facing"]) for o in objs]) and not (atom_keys(r["pred"]) & seen):
+        if satisfiable(r["pred"], ranges, ["Range" in (o["facing"] or "") for o in objs]) and not (atom_keys(r["pred"]) & seen):
             kept.append(r)
             seen |= atom_keys(r["pred"])
     order = t.permutation(len(kept), "reqorder") if len(kept) > 1 and t.chance(1, 3, "shuffle-reqs") else range(len(kept))
     reqs = [kept[k] for k in order]
 
     if meshy:
-        lines.append("from simverif.geogen import twobody")
+        lines.append("from simverif.geogen import twobody, lprism")
     lines.append(f"workspace = Workspace({region_text(ws)})")
     for k, c in enumerate(conts):
         lines.append(f"r{k} = {region_text(c)}")
@@ -259,4 +299,5 @@ def generate(t):
     for r in reqs:
         r["line"] = len(lines) + 1
         lines.append(("require " if r["prob"] is None else f"require[{r['prob']}] ") + pred_text(r["pred"], names))
-    return {"mode2D": two, "ws": ws, "conts": conts, "objs": objs, "reqs": reqs, "streak": streak, "text": "\n".join(lines) + "\n"}
+    feature = [None, "fixed-pair", "fixed-pair" if two else "embedded"][feature]
+    return {"mode2D": two, "ws": ws, "conts": conts, "objs": objs, "reqs": reqs, "streak": streak, "feature": feature, "text": "\n".join(lines) + "\n"}
